@@ -1,5 +1,6 @@
 #!/usr/bin/env python3
 import ast
+import io
 import os
 from collections import defaultdict
 from typing import Dict, Tuple, Union
@@ -136,7 +137,8 @@ MappingType = Dict[str, Dict[str, Tuple[str, str]]]
 
 
 def rewrite_imports(source_code: str, mapping: MappingType) -> Union[str, None]:
-    lines = source_code.splitlines(keepends=True)
+    # split at \n, \r\n and \r only, like the parser (str.splitlines also splits at \f, \v, ...)
+    lines = io.StringIO(source_code, newline='').readlines()
     tree = ast.parse(source_code)
     replacements = []
 
